@@ -1,6 +1,8 @@
 """C11 -- model interface and CPU-resident operators preserved verbatim (translation validation with
-a proved checker, theorem check_preserved_sound in props/C11.v). The harness computes a matching
-(untrusted witness); the extracted checker decides. Also: the output parses with Vela's own reader
+a proved checker, theorems check_preserved_sound / check_preserved_model_sound in props/C11.v). The
+harness computes a matching per subgraph (untrusted witness); the extracted checker (build/preserve,
+model/DispatchPreserve.v) decides on the WHOLE model: every subgraph of the source against the subgraph
+of the same index of the output, equal subgraph counts. Also: the output parses with Vela's own reader
 and with the plain flatbuffer walker."""
 import collections
 import hashlib
@@ -12,7 +14,8 @@ import models
 import tflsum
 import vlib
 
-FAMS = ["mixed_cpu", "unsupported", "ew_dag", "multi_custom", "mixed_cpu", "diamond", "single", "unsupported", "lut_heavy", "conv_chain"]
+FAMS = ["mixed_cpu", "unsupported", "ew_dag", "multi_custom", "mixed_cpu", "diamond", "single", "unsupported", "lut_heavy", "conv_chain",
+        "multi_subgraph"]
 
 
 def h(*parts):
@@ -117,10 +120,39 @@ def explain(src, out, psi, phi):
     return "data-dependency order or absorbed-operator accounting fails"
 
 
+def flat_model(src, out):
+    """input of CMD check_preserved_model: every subgraph of both models and one witness per output subgraph"""
+    ss, oo = src["subgraphs"], out["subgraphs"]
+    wits = [witness(ss[k], oo[k]) if k < len(ss) else ({}, {}) for k in range(len(oo))]
+    flat = [len(ss)]
+    for g in ss:
+        flat += flat_graph(g)
+    flat.append(len(oo))
+    for g in oo:
+        flat += flat_graph(g)
+    flat.append(len(wits))
+    for psi, phi in wits:
+        flat += [len(psi)] + [x for kv in psi.items() for x in kv] + [len(phi)] + [x for kv in phi.items() for x in kv]
+    return flat, wits
+
+
+def explain_model(src, out, wits):
+    """diagnostic only: (index of the first subgraph that differs or None, text)"""
+    ss, oo = src["subgraphs"], out["subgraphs"]
+    if len(ss) != len(oo):
+        return None, "number of subgraphs differs: source %d, output %d" % (len(ss), len(oo))
+    for k, (s, o, (psi, phi)) in enumerate(zip(ss, oo, wits)):
+        one = [1] + flat_graph(s) + [1] + flat_graph(o) + [1, len(psi)] + [x for kv in psi.items() for x in kv] + \
+              [len(phi)] + [x for kv in phi.items() for x in kv]
+        if models.run("check_preserved_model", [one], exe_name="preserve") != [[1]]:
+            return k, explain(s, o, psi, phi)
+    return None, "subgraphs are accepted one by one but not together"
+
+
 def run(tier):
     res = vlib.Result("C11", tier, "translation_validation")
     b = vlib.build_property("C11")
-    okx, xlog = vlib.build_extraction()
+    okx, xlog = vlib.build_extraction("preserve")
     n = 64 if tier == "quick" else 1600
     jobs = compiles.plan(FAMS, n, vlib.seed(), tag="c11", capture=False)
     import netgen
@@ -129,6 +161,10 @@ def run(tier):
     for rep in range(1 if tier == "quick" else 8):
         for kind in netgen.UNSUPPORTED_KINDS:
             jobs.append({"family": "unsupported:" + kind, "seed": "c11k-%d-%d" % (vlib.seed(), rep), "args": compiles.config_args(rk), "capture": False})
+    # every kind of multi-subgraph model (WHILE / IF / CALL_ONCE; 2..4 subgraphs) at least once
+    for rep in range(1 if tier == "quick" else 12):
+        for kind in sorted(set(netgen.MULTI_KINDS)):
+            jobs.append({"family": "multi_subgraph:" + kind, "seed": "c11m-%d-%d" % (vlib.seed(), rep), "args": compiles.config_args(rk), "capture": False})
     # a CPU-resident producer that has an NPU block type, followed by each kind of NPU-supported successor
     for rep in range(1 if tier == "quick" else 4):
         for kind in ("pool_stride4", "dw_stride4", "big_stride", "dilation"):
@@ -159,40 +195,55 @@ def run(tier):
                 reparse_fail.append((r, "read_model returned nothing"))
         except BaseException as ex:  # noqa
             reparse_fail.append((r, "%s: %s" % (type(ex).__name__, ex)))
-        s0, o0 = src["subgraphs"][0], out["subgraphs"][0]
-        psi, phi = witness(s0, o0)
-        flat = flat_graph(s0) + flat_graph(o0) + [len(psi)] + [x for kv in psi.items() for x in kv] + [len(phi)] + [x for kv in phi.items() for x in kv]
+        flat, wits = flat_model(src, out)
         cases.append(flat)
-        meta.append((r, s0, o0, psi, phi))
-    outs = models.run_parallel("check_preserved", cases) if okx and cases else []
+        meta.append((r, src, out, wits))
+    outs = models.run_parallel("check_preserved_model", cases, exe_name="preserve") if okx and cases else []
     programs, rejected, samples = 0, [], []
-    with_cpu = 0
-    for (r, s0, o0, psi, phi), o in zip(meta, outs):
+    with_cpu = multi_sg = subgraphs = cpu_consts_off0 = 0
+    for (r, src, out, wits), o in zip(meta, outs):
         programs += 1
-        ncpu = sum(1 for op in o0["operators"] if not (op["opcode"] == "CUSTOM" and op["custom_code"] == "ethos-u"))
+        s0, o0 = src["subgraphs"][0], out["subgraphs"][0]
+        ncpu = 0
+        for k, og in enumerate(out["subgraphs"]):
+            subgraphs += 1
+            for op in og["operators"]:
+                if not (op["opcode"] == "CUSTOM" and op["custom_code"] == "ethos-u"):
+                    ncpu += 1
+                    if k + 1 < len(out["subgraphs"]) and len(out["subgraphs"]) > 1:
+                        # constant operands of CPU operators in a subgraph that is not the last one
+                        cpu_consts_off0 += sum(1 for t in op["inputs"] if t >= 0 and og["tensors"][t]["data_len"])
         if ncpu:
             with_cpu += 1
+        if len(src["subgraphs"]) > 1:
+            multi_sg += 1
         if o != [1]:
-            rejected.append((r, explain(s0, o0, psi, phi)))
-        if len(samples) < 3 and ncpu and ncpu < len(o0["operators"]):
-            samples.append({"net": r.get("net_name"), "source_ops": [x["opcode"] for x in s0["operators"]],
-                            "output_ops": [x["custom_code"] or x["opcode"] for x in o0["operators"]], "matched_cpu_ops": len(phi)})
+            k, why = explain_model(src, out, wits)
+            rejected.append((r, why if k is None else "subgraph %d '%s': %s" % (k, src["subgraphs"][k]["name"], why), k, why))
+        if len(samples) < 4 and ncpu and (ncpu < len(o0["operators"]) and len(samples) < 3 or len(src["subgraphs"]) > 1):
+            samples.append({"net": r.get("net_name"),
+                            "source_ops": [[x["opcode"] for x in g["operators"]] for g in src["subgraphs"]],
+                            "output_ops": [[x["custom_code"] or x["opcode"] for x in g["operators"]] for g in out["subgraphs"]],
+                            "matched_cpu_ops": sum(len(w[1]) for w in wits)})
     res.cov.update({
         "programs": programs, "disagreements_checked": len(rejected) + len(reparse_fail), "samples": samples or [{"note": "none"}],
         "programs_with_cpu_operators": with_cpu, "skipped": dict(skipped),
+        "programs_with_several_subgraphs": multi_sg, "subgraph_pairs_validated": subgraphs,
+        "constant_operands_of_cpu_operators_outside_the_last_subgraph": cpu_consts_off0,
         "evaluations": len(results), "distinct_nontrivial": with_cpu,
-        "rule": "one program = (source model, output model) of one compilation; non-trivial = the output keeps at least one CPU operator",
+        "rule": "one program = (source model, output model) of one compilation, ALL subgraphs of both (the validator pairs subgraph k "
+                "with subgraph k and requires equal counts); non-trivial = the output keeps at least one CPU operator",
     })
     vlib.proof_coverage(res, b, ["tools/tflsum.py (plain flatbuffer walk) produces both summaries; signatures are 56-bit hashes of "
                                  "(name, shape, type, quantisation) / (opcode, custom code, version, option fields, custom option bytes)",
                                  "the matching is computed by the harness and only checked by the proved validator"])
     res.assumptions += ["sampled compilations", "hash collisions of 56-bit signatures are ignored"]
-    for r, why in rejected:
+    for r, why, k, why_sg in rejected:
         key = {"net": r.get("net_name"), "seed": r["job"]["seed"], "why": why[:40]}
-        if why == "number of subgraph inputs/outputs differs":
+        if why_sg == "number of subgraph inputs/outputs differs" and k is not None:
             import os
-            s0 = tflsum.summarise(os.path.join(r["job"]["out_dir"], "model.tflite"))["subgraphs"][0]
-            o0 = artefacts.load(r)["summary"]["subgraphs"][0]
+            s0 = tflsum.summarise(os.path.join(r["job"]["out_dir"], "model.tflite"))["subgraphs"][k]
+            o0 = artefacts.load(r)["summary"]["subgraphs"][k]
             dedup = []
             for t in s0["outputs"]:
                 if t not in dedup:
